@@ -151,9 +151,10 @@ def run(ctx):
     tfam = [d for d in fam if d['name'] not in ('wide_ops', 'rand_design') or
             (d['name'] == 'rand_design' and d['params']['seed'] % 3 == 0)]
     tfam = [d for d in tfam if _exportable(d)]
-    ttasks = [dict(design=d, simname=s, seed=ctx.seed, add_reset=ar)
+    ttasks = [dict(design=d, simname=s, seed=ctx.seed, add_reset=ar, init_mode=im, default_value=dv)
               for d in tfam for s in ('Simulation', 'FastSimulation', 'CompiledSimulation')
-              for ar in ((True,) if ctx.tier == 'quick' else (True, False))]
+              for ar in ((True,) if ctx.tier == 'quick' else (True, False))
+              for (im, dv) in ((1, 0), (2, 1), (0, 0), (3, 0))]
     tres = passcheck.pmap(_tb, ttasks)
     first = {}
     for t, r in zip(ttasks, tres):
